@@ -38,43 +38,11 @@ def parse_format(fmt):
     return order, codes, rep_unit, rep_k
 
 
-def run(ctx):
+
+def _record_shape_rules(ctx, top, fq, fbt, data):
+    """Proof form of C16-D1a/b: one struct pack whose format string and value list agree for a symbolic cache count."""
     R = ctx.report
-    generic.cli_converters(ctx, "C16-D3b CLI converters", "suit_generator.cmd_image", 4)
-    generic.subcommand_dispatch(ctx, "C16-D3c sub-command dispatch", "suit_generator.cmd_image", 2)
-    _u32 = [0, 1, 15, 16, 0x0E1EF340, 0x7FFFFFFF, 0x80000000, 0x80000001, 0xFFFFFFF0, 0xFFFFFFFF]
-    generic.no_refusal_on_grid(ctx, "C16-D4 no legal address or cache count is refused", ctx.repo.func(IMG, "ImageCreator.create_files_for_update"),
-                               {"update_candidate_info_address": _u32, "dfu_partition_address": _u32, "dfu_max_caches": [0, 1, 2, 6, 15, 16]},
-                               inline_depth=3, what="32-bit addresses and cache counts 0..16")
-    repo = ctx.repo
-    ctx.use_files("suit_generator/cmd_image.py", "ncs/build.py")
-    ev = Evaluator(repo, inline_depth=5)
-    top = repo.func(IMG, "ImageCreator.create_files_for_update")
-    fq = ctx.fq(top)
-    outs = ev.outcomes(top)
-    rets = [o for o in outs if o.kind == "return"]
-    rets = generic.sole_outcome(ctx, rets, f"{fq}: expected one normal outcome, found {len(rets)}")
-    o = rets[0]
     P = lambda n: Sym("param:" + n)
-
-    fb = find_effect_calls(o.effects, "meth:frombytes")
-    wr = find_effect_calls(o.effects, "meth:write_hex_file")
-    if len(fb) == 0 or len(wr) == 0:
-        generic.absent(ctx, "update-candidate record", top, "frombytes(record, address) and write_hex_file(storage_output_file)",
-                       "the storage hex file is not produced")
-    if len(fb) > 1 and len(wr) == 1 and all(x.args[0] == wr[0].args[0] for x in fb):
-        from sa.index import Abort
-        R.rule("C16-D1c record placement", 1, "record alone at update_candidate_info_address, written to storage_output_file")
-        R.fail("C16-D1c record placement", "nothing else is put into the storage file", mod=top.module, node=fb[1].node, function=fq,
-               expected="only the update-candidate record", found=f"{len(fb)} frombytes into the storage hex object: {repr(fb[1])[:200]}")
-        raise Abort()
-    if len(fb) != 1 or len(wr) != 1:
-        raise AnalysisError(f"{fq}: storage hex effects not recognised ({len(fb)} frombytes, {len(wr)} write_hex_file)")
-    fbt, wrt = fb[0], wr[0]
-    hexobj, data = fbt.args[0], fbt.args[1]
-    off = fbt.args[2] if len(fbt.args) > 2 else None
-
-    R.rule("C16-D1a record format", 4, "little-endian 32-bit fields; field count equals value count for every cache count")
     pack = data
     fmt, values = None, None
     if isinstance(pack, App) and pack.op == "meth:pack" and isinstance(pack.args[0], App) \
@@ -89,6 +57,7 @@ def run(ctx):
     if pf is None:
         raise AnalysisError(f"{fq}: struct format not foldable: {fmt!r}"[:300])
     order, codes, unit, k = pf
+    R.rule("C16-D1a record format", 4, "little-endian 32-bit fields; field count equals value count for every cache count")
     R.check("C16-D1a record format", order == "<", "byte order", mod=top.module, node=fbt.node, function=fq,
             expected="'<' (little endian, no alignment)", found=repr(order))
     R.check("C16-D1a record format", set(codes + unit) <= {"I"} and len(codes) > 0, "field width", mod=top.module, node=fbt.node,
@@ -126,6 +95,74 @@ def run(ctx):
     zeros = rep_vals is not None and rep_vals[0] is not None and all(x == Const(0) for x in rep_vals[0])
     R.check("C16-D1b record values", zeros, "cache entries are zero", mod=top.module, node=fbt.node, function=fq,
             expected="[0, 0] per cache", found=repr(rep_vals))
+
+def run(ctx):
+    R = ctx.report
+    generic.cli_converters(ctx, "C16-D3b CLI converters", "suit_generator.cmd_image", 4)
+    generic.subcommand_dispatch(ctx, "C16-D3c sub-command dispatch", "suit_generator.cmd_image", 2)
+    _u32 = [0, 1, 15, 16, 0x0E1EF340, 0x7FFFFFFF, 0x80000000, 0x80000001, 0xFFFFFFF0, 0xFFFFFFFF]
+    generic.no_refusal_on_grid(ctx, "C16-D4 no legal address or cache count is refused", ctx.repo.func(IMG, "ImageCreator.create_files_for_update"),
+                               {"update_candidate_info_address": _u32, "dfu_partition_address": _u32, "dfu_max_caches": [0, 1, 2, 6, 15, 16]},
+                               inline_depth=3, what="32-bit addresses and cache counts 0..16")
+    repo = ctx.repo
+    ctx.use_files("suit_generator/cmd_image.py", "ncs/build.py")
+    ev = Evaluator(repo, inline_depth=5)
+    top = repo.func(IMG, "ImageCreator.create_files_for_update")
+    fq = ctx.fq(top)
+    outs = ev.outcomes(top)
+    rets = [o for o in outs if o.kind == "return"]
+    rets = generic.sole_outcome(ctx, rets, f"{fq}: expected one normal outcome, found {len(rets)}")
+    o = rets[0]
+    P = lambda n: Sym("param:" + n)
+
+    fb = find_effect_calls(o.effects, "meth:frombytes")
+    wr = find_effect_calls(o.effects, "meth:write_hex_file")
+    if len(fb) == 0 or len(wr) == 0:
+        generic.absent(ctx, "update-candidate record", top, "frombytes(record, address) and write_hex_file(storage_output_file)",
+                       "the storage hex file is not produced")
+    if len(fb) > 1 and len(wr) == 1 and all(x.args[0] == wr[0].args[0] for x in fb):
+        from sa.index import Abort
+        R.rule("C16-D1c record placement", 1, "record alone at update_candidate_info_address, written to storage_output_file")
+        R.fail("C16-D1c record placement", "nothing else is put into the storage file", mod=top.module, node=fb[1].node, function=fq,
+               expected="only the update-candidate record", found=f"{len(fb)} frombytes into the storage hex object: {repr(fb[1])[:200]}")
+        raise Abort()
+    if len(fb) != 1 or len(wr) != 1:
+        raise AnalysisError(f"{fq}: storage hex effects not recognised ({len(fb)} frombytes, {len(wr)} write_hex_file)")
+    fbt, wrt = fb[0], wr[0]
+    hexobj, data = fbt.args[0], fbt.args[1]
+    off = fbt.args[2] if len(fbt.args) > 2 else None
+
+    # decided by evaluating the record on a grid of addresses, envelope sizes and cache counts (whatever way the bytes are produced:
+    # one pack, a packed header padded with zeros, ...); the rules over the format string and the value list are the proof form
+    import struct as _struct
+    from sa.teval import teval as _teval, Unknown as _Unknown, Raised as _Raised
+    size_t = App("call:os.path.getsize", (P("input_file"),))
+    grid_bad, grid_n, grid_decided = None, 0, True
+    try:
+        for addr_ in (0, 0x0E1EF340, 0xFFFFFFFF):
+            for size_ in (0, 1, 0x12345, 0xFFFFFFFF):
+                for n_ in (0, 1, 2, 6, 16):
+                    env = {"param:dfu_partition_address": addr_, size_t: size_, "param:dfu_max_caches": n_, **generic.loops_env(o, data)}
+                    got = _teval(data, env)
+                    want_ = _struct.pack("<IIII" + "II" * n_, MAGIC, 1, addr_, size_, *([0] * (2 * n_)))
+                    grid_n += 1
+                    if bytes(got) != want_ and grid_bad is None:
+                        grid_bad = f"address {addr_:#x}, size {size_:#x}, {n_} caches: {bytes(got).hex()[:96]}"
+    except (_Unknown, _Raised, TypeError, ValueError):
+        grid_decided = False
+    if grid_decided:
+        R.rule("C16-D1g record bytes on a grid", 1, "magic, 1, partition address, envelope size, then two zero words per cache; little-endian 32-bit words")
+        R.check("C16-D1g record bytes on a grid", grid_bad is None, f"{grid_n} combinations of address / size / cache count", mod=top.module,
+                node=fbt.node, function=fq, expected="<IIII + II per cache: 0x55AA55AA, 1, dfu_partition_address, getsize(input_file), 0 ...",
+                found=grid_bad or "")
+    import contextlib
+    try:
+        with (R.lenient("decided by evaluating the record on a grid of addresses, sizes and cache counts (C16-D1g)") if grid_decided else contextlib.nullcontext()):
+            _record_shape_rules(ctx, top, fq, fbt, data)
+    except AnalysisError:
+        if not grid_decided:
+            raise
+        R.infos.append("record not produced by one struct pack: the format / value-list rules do not apply; record decided on the grid (C16-D1g)")
 
     R.rule("C16-D1c record placement", 3, "record alone at update_candidate_info_address, written to storage_output_file")
     R.check("C16-D1c record placement", off == P("update_candidate_info_address"), "address", mod=top.module, node=fbt.node,
